@@ -82,6 +82,10 @@ def _run(V, work, tier):
         loops.append((ci, ch, mutual, cls))
         cases.append(("l%d" % ci, P.loop_program(rnd, ch, 3, mutual), "loop"))
 
+    # tail loops whose non-last body forms make ordinary calls and whose iterations reach new stack depths
+    for i in range(120 if thorough else 30):
+        cases.append(("g%d" % i, P.growing_loop_program(rnd), "grow"))
+
     # Machine predictions: every program with elimination on and off
     recs, drv = [], []
     for cid, forms, kind in cases:
